@@ -604,7 +604,7 @@ func GenWorld(r *RNG, p Profile, pt *ParamTables) *World {
 		if hi > 2098 {
 			hi = 2098
 		}
-		y0 = r.Range(lo, hi-years-1)
+		y0 = r.Range(lo+2, hi-years-2) // two spare years on each side: pre-start events, the initial crop's sowing date and the spare weather year stay inside the unambiguous century window
 	} else {
 		c.DivideCentury = r.PickI([]int{0, 50, 60})
 		y0 = r.Range(1902, 2098-years-1)
